@@ -32,11 +32,13 @@ def _c03(run, drv, rng, tier):
         if tier == "quick":
             props_c.check_copier(run, drv, rng, sc, 4000, False, ("-O2",), "C03")
             props_c.check_basetype_grid(run, drv, rng, sc, False, ("-O2",), 0.12, "C03")
+            props_c.check_array_grid(run, drv, rng, sc, False, ("-O2",), 0.12, "C03")
             props_c.check_compiled(run, drv, rng, sc, 24, 4, [{"name": "O2", "cflags": ("-O2",)}], "C03")
         else:
             for fl in (("-O0",), ("-O2",), ("-O3",)):
                 props_c.check_copier(run, drv, rng, sc, 60000, False, fl, "C03")
                 props_c.check_basetype_grid(run, drv, rng, sc, False, fl, 1.0, "C03")
+                props_c.check_array_grid(run, drv, rng, sc, False, fl, 1.0, "C03")
             cfgs = [{"name": "O0", "cflags": ("-O0",)}, {"name": "O2", "cflags": ("-O2",)}, {"name": "O3", "cflags": ("-O3",)},
                     {"name": "O2-single-TU", "cflags": ("-O2",), "single_tu": True},
                     {"name": "O1-asan-ubsan", "cflags": ("-O1", "-fsanitize=undefined", "-fno-sanitize=alignment", "-fno-sanitize-recover=all")}]
@@ -49,6 +51,7 @@ def _c06(run, drv, rng, tier):
         props_c.check_copier(run, drv, rng, sc, n, True, ("-O2",), "C06")
         props_c.check_basetype_grid(run, drv, rng, sc, True, ("-O2",), frac, "C06")
         props_c.check_basetype_grid(run, drv, rng, sc, False, ("-O2",), frac / 2, "C06")
+        props_c.check_array_grid(run, drv, rng, sc, True, ("-O2",), frac, "C06")
         if tier == "thorough":
             props_c.check_basetype_grid(run, drv, rng, sc, True, ("-O0",), 1.0, "C06")
         from . import props_op
@@ -77,6 +80,7 @@ def _c14(run, drv, rng, tier):
         for be in (False, True):
             for fl in ((("-O2",),) if q else (("-O0",), ("-O2",))):
                 props_c.check_basetype_grid(run, drv, rng, sc, be, fl, 1.0, "C14")
+                props_c.check_array_grid(run, drv, rng, sc, be, fl, 0.5 if q else 1.0, "C14")
         from . import props_op
         props_op.check_c14_opmode(run, drv, rng, sc, 0.08 if q else 1.0)
     props_c.check_c14_python(run, drv, rng, 0.25 if q else 1.0)
@@ -96,6 +100,7 @@ PY_ASSUME = [
 
 PROPS = {
     "C01": {
+        "wire_corpus": True,
         "modules": ["BpModel.Props.C01"],
         "theorems": [
             "Bp.C01.C01_py_encode_is_spec", "Bp.C01.C01_py_encode_in_range", "Bp.C01.C01_length",
@@ -112,6 +117,7 @@ PROPS = {
         "assumptions": PY_ASSUME,
     },
     "C02": {
+        "wire_corpus": True,
         "modules": ["BpModel.Props.C02"],
         "theorems": [
             "Bp.C02.C02_roundtrip_partial", "Bp.C02.C02_spec_roundtrip", "Bp.C02.C02_signed_leaf",
@@ -127,7 +133,7 @@ PROPS = {
     "C05": {
         "modules": ["BpModel.Props.C05"],
         "theorems": [
-            "Bp.C05.C05_spec", "Bp.C05.C05_py", "Bp.C05.C05_cursor", "Bp.C05.C05_chain", "Bp.C05.C05_refl",
+            "Bp.C05.C05_spec", "Bp.C05.C05_py", "Bp.C05.C05_c", "Bp.C05.C05_cursor", "Bp.C05.C05_chain", "Bp.C05.C05_refl",
             "Bp.C05.C05_step_append", "Bp.C05.C05_step_grow", "Bp.C05.KF_array_skip_old_formula_witness",
         ],
         "explore": _c05,
@@ -140,6 +146,7 @@ PROPS = {
                                     "Go runtime: same formula by inspection; Go is never executed here"],
     },
     "C03": {
+        "wire_corpus": True,
         "modules": ["BpModel.Props.C03"],
         "theorems": ["Bp.C03.C03_c_encode", "Bp.C03.C03_c_decode", "Bp.C03.C03_interop", "Bp.C03.C03_copier",
                      "Bp.C03.C03_batch_eq_loop", "Bp.C03.C03_sign", "Bp.C03.C03_storage_tied"],
@@ -164,6 +171,7 @@ PROPS = {
                                    "non-standard signed widths reads a native integer and is applied natively in the emulation"],
     },
     "C07": {
+        "wire_corpus": True,
         "modules": ["BpModel.Props.C07"],
         "theorems": ["Bp.C07.C07_size_const", "Bp.C07.C07_leaf_low_bits", "Bp.C07.C07_spec_mask", "Bp.C07.C07_py_mask",
                      "Bp.C07.C07_c_mask", "Bp.C07.C07_c_encode_in_bounds", "Bp.C07.C07_c_decode_in_bounds",
@@ -177,7 +185,7 @@ PROPS = {
     },
     "C14": {
         "modules": ["BpModel.Props.C14"],
-        "theorems": ["Bp.C14.frames_wf", "Bp.C14.batch_table", "Bp.C14.C14"],
+        "theorems": ["Bp.C14.frames_wf", "Bp.C14.batch_table", "Bp.C14.C14", "Bp.C14.C14_helpers_tied"],
         "explore": _c14,
         "correspondence": "complete finite (kind, offset, position) space executed on the Python and C runtimes",
         "rule": "130 kinds x 8 offsets x {scalar, array element, alias, array of alias} with zero/all-ones/every "
